@@ -934,6 +934,17 @@ func (this *encodingTask) encode(res *encodingTaskResult) {
 	ee.Dispose()
 	obs.Close()
 	written := obs.Written()
+
+	if n := int((written + 7) >> 3); n > cap(data) {
+		// The entropy coder expanded the block beyond the size of the buffer: the buffer
+		// stream has moved its content to a bigger storage, fetch it from there
+		data = make([]byte, n)
+
+		if _, err = io.ReadFull(bufStream, data); err != nil {
+			res.err = &IOError{msg: err.Error(), code: kanzi.ERR_PROCESS_BLOCK}
+			return
+		}
+	}
 	verifHook(this.ctx, VH_E_LOCAL, this.currentBlockID, int64(written), int64(postTransformLength)|int64(mode)<<32|int64(skipFlags)<<40, verifClip(data, int((written+7)>>3)))
 
 	if len(this.listeners) > 0 {
